@@ -61,9 +61,18 @@ instance : DecidableEq Block := fun a b => withPtrEqDecEq a b (fun _ => Block.de
 def le32 (l : List Nat) : Nat :=
   l.getD 0 0 + 256 * l.getD 1 0 + 65536 * l.getD 2 0 + 16777216 * l.getD 3 0
 
-/-- what `WriteBuffer.Flush` produces: 16 header bytes whose size field is the payload length;
-    a block is never empty (Flush returns nil for an empty buffer; snappy output is never empty) -/
-def Block.WF (b : Block) : Prop := b.hdr.length = 16 ∧ le32 b.hdr = b.plen ∧ 0 < b.plen
+/-- `BlockHeader.EntryCount` is a `uint16`: a block holds at most this many entries -/
+def maxEnts : Nat := 65535
+
+/-- the `EntryCount` field of the header as written (bytes 8–9, little endian): 16 bits, whatever
+    the number of entries handed to `CompressEntries` was (`uint16(len(entries))` wraps) -/
+def Block.cnt (b : Block) : Nat := b.hdr.getD 8 0 % 256 + 256 * (b.hdr.getD 9 0 % 256)
+
+/-- what `WriteBuffer.Flush` / `CompressEntries` produce for at most `maxEnts` entries: 16 header
+    bytes whose size field is the payload length and whose count field is the number of entries;
+    a block is never empty (nil for an empty buffer; snappy output is never empty) -/
+def Block.WF (b : Block) : Prop :=
+  b.hdr.length = 16 ∧ le32 b.hdr = b.plen ∧ 0 < b.plen ∧ b.cnt = b.ents.length
 
 instance (b : Block) : Decidable b.WF := by unfold Block.WF; exact inferInstance
 
@@ -135,8 +144,12 @@ def readBlocks : Nat → List Cell → List Op × Stop
           match cs.head? with
           | some (.bh b _) =>
             if cs.take (16 + p) = blockCells b then
-              let r := readBlocks f (cs.drop (16 + p))
-              (b.ents ++ r.1, r.2)
+              -- `ParseBlock` deserialises `EntryCount` entries and rejects a payload that is not
+              -- used up by them (or ends before them): `ErrCorruptedBlock`
+              if b.cnt = b.ents.length then
+                let r := readBlocks f (cs.drop (16 + p))
+                (b.ents ++ r.1, r.2)
+              else ([], .crc)
             else ([], .crc)
           | _ => ([], .crc)
 
